@@ -42,8 +42,10 @@ def cells_match(res, obj, dec, desc, origin):
     """Note attributes of the live patterns vs the documented cell layout of the written PDTA (note, vel, module u16, CCEE u16, XXYY u16)."""
     import struct
     for pi, (q, dq) in enumerate(zip(obj.patterns, dec["patterns"])):
-        if q is None or dq is None or dq["kind"] != "pattern":
+        if q is None or dq is None or dq["kind"] != "pattern" or not hasattr(q, "data"):
             continue
+        if (q.tracks, q.lines) != (dq["tracks"], dq["lines"]):
+            continue  # slot misalignment / wrong shape is reported by the structural comparison
         cells = dq["cells"]
         tracks = dq["tracks"]
         n = len(cells) // 8
@@ -80,7 +82,7 @@ def judge(res, raw, snap_norm, desc, origin, obj=None):
         res.violation(f"C03:structure:{problem_key(p)}", f"{origin}: {p}", desc)
     if problems:
         return
-    if obj is not None and dec["kind"] == "project":
+    if obj is not None and dec["kind"] == "project" and len(obj.patterns) == len(dec["patterns"]):
         cells_match(res, obj, dec, desc, origin)
     d = refcodec.compare(snap_norm, dec)
     for path, a, b in d[:4]:
